@@ -20,6 +20,7 @@ import (
 	"os/exec"
 	"path/filepath"
 	"sort"
+	"strconv"
 	"strings"
 	"sync"
 
@@ -162,6 +163,25 @@ func genVariants(p *an.Prog, files map[string]bool) []variant {
 					flips := map[token.Token][]string{token.LSS: {"<="}, token.LEQ: {"<"}, token.GTR: {">="}, token.GEQ: {">"}, token.EQL: {"!="}, token.NEQ: {"=="}}
 					for _, to := range flips[be.Op] {
 						add("sens", "flip-comparison", "`"+short(src(fset, content, be))+"`: "+be.Op.String()+" -> "+to, be, edit{fname, off(be.OpPos), off(be.OpPos) + len(be.Op.String()), to})
+					}
+					// invariance: x < c  ==>  x <= c-1 (integers, constant bound)
+					if lit, isLit := be.Y.(*ast.BasicLit); isLit && lit.Kind == token.INT && isIntExpr(info, be.X) {
+						if c, err := strconv.ParseInt(lit.Value, 0, 64); err == nil && c > -1000 && c < 1000 {
+							var to string
+							switch be.Op {
+							case token.LSS:
+								to = fmt.Sprintf("<= %d", c-1)
+							case token.LEQ:
+								to = fmt.Sprintf("< %d", c+1)
+							case token.GTR:
+								to = fmt.Sprintf(">= %d", c+1)
+							case token.GEQ:
+								to = fmt.Sprintf("> %d", c-1)
+							}
+							if to != "" {
+								add("inv", "tighten-int-comparison", "`"+short(src(fset, content, be))+"` -> "+to, be, edit{fname, off(be.OpPos), off(be.End()), to})
+							}
+						}
 					}
 					// invariance: a < b  ==>  b > a
 					mirror := map[token.Token]string{token.LSS: ">", token.LEQ: ">=", token.GTR: "<", token.GEQ: "<=", token.EQL: "==", token.NEQ: "!="}
